@@ -127,8 +127,10 @@ fn rand_sigs(rng: &mut ChaCha8Rng, n: usize) -> Vec<&'static str> {
 }
 
 fn rand_proof(rng: &mut ChaCha8Rng, inst: &J, pre: &J, prefer_latest: f64) -> J {
-    let hbe: Vec<String> = pre["hashByEpoch"].as_array().unwrap().iter().map(|x| x.as_str().unwrap().to_string()).collect();
     let names: Vec<String> = inst["Sets"].as_object().unwrap().keys().cloned().collect();
+    // the projection may report holes ("none") or unknown sets when the code under test lost an entry: the driver
+    // must keep going (the divergence is the trace validator's business), so only catalogue names are drawn
+    let hbe: Vec<String> = pre["hashByEpoch"].as_array().unwrap().iter().filter_map(|x| x.as_str()).filter(|x| names.iter().any(|n| n == x)).map(|x| x.to_string()).collect();
     let set = if !hbe.is_empty() && rng.gen_bool(prefer_latest) {
         hbe[hbe.len() - 1].clone()
     } else if !hbe.is_empty() && rng.gen_bool(0.8) {
@@ -174,7 +176,7 @@ fn rand_act(rng: &mut ChaCha8Rng, inst: &J, pre: &J) -> J {
         };
         json!({"name": "ValidateProof", "data": data, "proof": rand_proof(rng, inst, pre, 0.4), "auth": []})
     } else if x < 60 {
-        let installed: Vec<&str> = pre["hashByEpoch"].as_array().unwrap().iter().map(|x| x.as_str().unwrap()).collect();
+        let installed: Vec<&str> = pre["hashByEpoch"].as_array().unwrap().iter().filter_map(|x| x.as_str()).collect();
         let fresh_valid: Vec<&String> = set_names.iter().filter(|n| wellformed(&inst["Sets"][n.as_str()]) && !installed.contains(&n.as_str())).collect();
         let new = if !fresh_valid.is_empty() && rng.gen_bool(0.7) {
             fresh_valid[rng.gen_range(0..fresh_valid.len())].clone()
